@@ -6,6 +6,8 @@ Decides (writer/reader agreement and field coverage; not step-for-step equality 
   2 TABLE       register blob layout (names, order, widths, 18 bytes), magic, version
   3 FIELD-COVER run-time state that steers the step path (read in a branch condition and written on the step path)
                 is saved and restored, or is in a frozen, reasoned transient list
+  4 COMPLETE    per-entry save loops store every entry; the flattened memory image copies overlay payloads through the last window byte;
+                restore of timer targets is exact
 """
 from __future__ import annotations
 
